@@ -176,3 +176,32 @@ Fixpoint select_types (ts : list tin) : res (list (list nat)) :=
 
 Definition select_all (nbest nfeat : Z) (ts : list tin) : res (list (list nat)) :=
   if (0 <? nbest) && (nbest <=? nfeat + 1) then select_types ts else AssertErr.
+
+(* ---- colsample < 1 (BaseSelector.select) -------------------------------------------------- *)
+(* the shuffled feature list of a dtype is cut in k = int(1/colsample) samples: k - 1 slices of
+   `chunks` features, the last sample takes all the rest (chunks = int(len(all features) //
+   (1/colsample)): both integers are computed by the harness with CPython's float arithmetic;
+   the shuffled order is an oracle recorded from the real run) *)
+Definition col_samples {A} (chunks k : nat) (l : list A) : list (list A) :=
+  map (fun i => firstn chunks (skipn (chunks * i) l)) (seq 0 (k - 1)) ++ [skipn (chunks * (k - 1)) l].
+
+Definition sub_tin (t : tin) (ids : list nat) (nbest : nat) : tin :=
+  mkTin (t_n t) (t_tnan t) (t_tmode t) nbest (t_ms t)
+        (flat_map (fun i => match find (fun f => Nat.eqb (f_id f) i) (t_feats t) with
+                            | Some f => [f] | None => [] end) ids)
+        (t_filters t).
+
+(* pre-selection of n_best // 2 features in every sample *)
+Fixpoint select_samples (t : tin) (samples : list (list nat)) (nb : nat) : res (list nat) :=
+  match samples with
+  | [] => Ok []
+  | s :: rest => do a <- select_type (sub_tin t s nb); do b <- select_samples t rest nb; Ok (a ++ b)
+  end.
+
+(* final selection among the pre-selected features (`if any(best_features)`) *)
+Definition select_type_cs (t : tin) (shuffled : list nat) (chunks k : nat) : res (list nat) :=
+  do best <- select_samples t (col_samples chunks k shuffled) (Nat.div (t_nbest t) 2);
+  match best with
+  | [] => Ok []
+  | _ => select_type (sub_tin t best (t_nbest t))
+  end.
